@@ -405,6 +405,15 @@ pub fn check_conc(ctx: &mut Ctx, cfg: ConcCfg, strat: fn() -> BoxedStrategy<SymP
         print_summary(ctx, &acc);
         return EXIT_VIOLATION;
     }
+    if cfg.prop == "C16" {
+        // at the server: a connection that never sends anything must not block others
+        if let Some(code) = crate::props::l3phases::silent_peer_phase(ctx, &acc) {
+            if code != EXIT_OK {
+                write_evidence(ctx, &acc, rule, ASSUME_L2, 1);
+                return code;
+            }
+        }
+    }
     if let Some(code) = crate::props::stress::phase(ctx, &acc, cfg.prop) {
         if code != EXIT_OK {
             write_evidence(ctx, &acc, rule, ASSUME_L2, 1);
